@@ -4,6 +4,7 @@ package main
 
 import (
 	"fmt"
+	"go/token"
 	"go/types"
 	"sort"
 	"strings"
@@ -195,6 +196,13 @@ func (e *Effects) CallBlocking(f *ssa.Function, x ssa.CallInstruction) []blockSi
 			out = append(out, e.Blocking(mc.Fn.(*ssa.Function))...)
 			return
 		}
+		// a function value handed down as a parameter / returned by a module function / captured
+		if fs, ok := e.funcValues(cc.Value, map[ssa.Value]bool{}, 0); ok {
+			for _, g := range fs {
+				out = append(out, e.Blocking(g)...)
+			}
+			return
+		}
 		e.Unknown = append(e.Unknown, fnName(f)+": dynamic call "+Expr(cc.Value))
 	}()
 	return out
@@ -242,9 +250,125 @@ func (e *Effects) Reach(f *ssa.Function) map[*ssa.Function]bool {
 				for _, h := range e.Bind[fld] {
 					w(h)
 				}
+				continue
+			}
+			if mc, ok := cc.Value.(*ssa.MakeClosure); ok {
+				w(mc.Fn.(*ssa.Function))
+				continue
+			}
+			if fs, ok := e.funcValues(cc.Value, map[ssa.Value]bool{}, 0); ok {
+				for _, h := range fs {
+					w(h)
+				}
 			}
 		}
 	}
 	w(f)
 	return seen
+}
+
+// funcValues: the module functions a function-typed value can be - a literal, a named function, the result
+// of a module function that returns literals, a captured variable, or a parameter (then: what every static
+// caller in the module passes, a recursive pass-through of the same parameter aside).  ok=false when some
+// source cannot be enumerated.
+func (e *Effects) funcValues(v ssa.Value, seen map[ssa.Value]bool, d int) ([]*ssa.Function, bool) {
+	if d > 8 {
+		return nil, false
+	}
+	if seen[v] {
+		return nil, true
+	}
+	seen[v] = true
+	switch x := v.(type) {
+	case *ssa.MakeClosure:
+		return []*ssa.Function{x.Fn.(*ssa.Function)}, true
+	case *ssa.Function:
+		if x.Blocks == nil {
+			return nil, false
+		}
+		return []*ssa.Function{x}, true
+	case *ssa.ChangeType:
+		return e.funcValues(x.X, seen, d+1)
+	case *ssa.Phi:
+		var out []*ssa.Function
+		for _, ed := range x.Edges {
+			fs, ok := e.funcValues(ed, seen, d+1)
+			if !ok {
+				return nil, false
+			}
+			out = append(out, fs...)
+		}
+		return out, true
+	case *ssa.FreeVar:
+		if b := bindingOf(x); b != nil {
+			return e.funcValues(b, seen, d+1)
+		}
+	case *ssa.UnOp:
+		// load of a local cell holding the function
+		if al, ok := x.X.(*ssa.Alloc); ok && x.Op == token.MUL {
+			var out []*ssa.Function
+			n := 0
+			for _, r := range *al.Referrers() {
+				if st, ok := r.(*ssa.Store); ok && st.Addr == ssa.Value(al) {
+					n++
+					fs, ok := e.funcValues(st.Val, seen, d+1)
+					if !ok {
+						return nil, false
+					}
+					out = append(out, fs...)
+				}
+			}
+			return out, n > 0
+		}
+	case *ssa.Call:
+		if h := staticCallee(&x.Call); h != nil && strings.HasPrefix(pkgPathOf(h), modPath) && h.Blocks != nil {
+			rf := returnedFuncs(h)
+			if len(rf) == 0 {
+				return nil, false
+			}
+			var out []*ssa.Function
+			for g := range rf {
+				out = append(out, g)
+			}
+			sort.Slice(out, func(i, j int) bool { return fnName(out[i]) < fnName(out[j]) })
+			return out, true
+		}
+	case *ssa.Parameter:
+		g := x.Parent()
+		idx := -1
+		for i, p := range g.Params {
+			if p == x {
+				idx = i
+			}
+		}
+		if idx < 0 || isExportedFn(g) && g.Parent() == nil {
+			return nil, false // callers outside the module may pass anything
+		}
+		var out []*ssa.Function
+		n := 0
+		for _, mp := range e.P.ModPkgs() {
+			for _, h := range e.P.PkgFuncs(strings.TrimPrefix(mp, modPath+"/")) {
+				if e.P.InTestFile(h) {
+					continue
+				}
+				for _, ci := range callsIn(h) {
+					if staticCallee(ci.Common()) != g || idx >= len(ci.Common().Args) {
+						continue
+					}
+					a := ci.Common().Args[idx]
+					if a == ssa.Value(x) {
+						continue // recursive pass-through
+					}
+					n++
+					fs, ok := e.funcValues(a, seen, d+1)
+					if !ok {
+						return nil, false
+					}
+					out = append(out, fs...)
+				}
+			}
+		}
+		return out, n > 0
+	}
+	return nil, false
 }
